@@ -444,3 +444,28 @@ Definition transparent_b (fuel ml : nat) (h : list op) (o : op) : bool :=
 (* rebuilding an item from its spec / its ident, cache-free *)
 Definition rebuild_spec (fuel : nat) (a : item) : res := build0 fuel (item_cls a) (spec_args a).
 Definition rebuild_ident (fuel : nat) (a : item) : res := build0 fuel CLexicalAbc [ident_pv a].
+
+(* ---- correspondence helpers (tools/c14.py) ---- *)
+Fixpoint trace (fuel : nat) (c : cfg) (h : list op) (st : cache) : list (res * list item) :=
+  match h with
+  | [] => []
+  | (k, args) :: h' =>
+      let '(r, st1) := call fuel c k args st in (r, queue st1) :: trace fuel c h' st1
+  end.
+
+Definition obs_eqb (a b : res * list item) : list bool :=
+  [res_eqb (fst a) (fst b); list_eqb item_eqb (snd a) (snd b)].
+
+Fixpoint zip_obs (l m : list (res * list item)) : list (list bool) :=
+  match l, m with
+  | x :: l', y :: m' => obs_eqb x y :: zip_obs l' m'
+  | _, _ => []
+  end.
+
+(* pre: the flushing prefix (fillers) whose results are not compared *)
+Definition check_trace (fuel ml : nat) (pre h : list op) (obs : list (res * list item))
+  : list (list bool) :=
+  zip_obs (trace fuel (cached ml) h (snd (run fuel (cached ml) pre empty))) obs.
+
+Definition build0_all (fuel : nat) (h : list op) : list res :=
+  map (fun o => build0 fuel (fst o) (snd o)) h.
